@@ -6,6 +6,7 @@
 EXTENDS GroupSub, TLC
 
 CONSTANTS Consumers, MaxEpoch, MaxSubs, MaxOps, UsePlain, UseBad, UseBurst, UseFollower, UseBounded, C0,
+          UseGrpc,       \* subscribes through the gRPC handler (client stream observed)
           UseRace,       \* loop exit racing with a subscribe (DoRace)
           MaxElect,      \* number of leader changes (0 = none)
           StrandedKnown  \* TRUE = states of the open finding C13-member-stranded-on-former-leader (an
@@ -24,8 +25,9 @@ MCInit == Init /\ last = [a |-> "Open"] /\ nOps = 0 /\ nEl = 0
 \* flag and the follower only with the first consumer / epoch 1 / valid
 \* open-ended positions (a follower never looks at them for a group request, and
 \* a plain one has no epoch); a stop position only on valid requests.
-MCSubscribe(n, ris, g, c, e, bad, stop) ==
-  LET q == [n |-> n, ris |-> ris, g |-> g, c |-> c, e |-> e, bad |-> bad, stop |-> stop] IN
+MCSubscribe(n, ris, g, c, e, bad, stop, via) ==
+  LET q == [n |-> n, ris |-> ris, g |-> g, c |-> c, e |-> e, bad |-> bad, stop |-> stop, via |-> via] IN
+  /\ (via = "grpc") => (UseGrpc /\ g # NoGroup /\ n = ldr /\ ~ris /\ ~bad /\ stop = "none")
   /\ Len(subs) < MaxSubs
   /\ (g = NoGroup) => UsePlain
   /\ bad => UseBad
@@ -46,9 +48,13 @@ MCBurst(g, c1, c2, e) ==
 MCRace(s, c, e) ==
   /\ UseRace /\ s \in Idx /\ subs[s].g # NoGroup /\ subs[s].n = ldr
   /\ Len(subs) < MaxSubs
-  /\ LET q == [n |-> subs[s].n, ris |-> FALSE, g |-> subs[s].g, c |-> c, e |-> e, bad |-> FALSE, stop |-> "none"] IN
+  /\ LET q == [n |-> subs[s].n, ris |-> FALSE, g |-> subs[s].g, c |-> c, e |-> e, bad |-> FALSE, stop |-> "none",
+               via |-> "int"] IN
      /\ DoRace(s, q)
      /\ Step([a |-> "Race", s |-> s, q |-> q])
+
+\* a duplicated resume counts against the same small budget as the leader changes
+MCResume == /\ nEl < MaxElect /\ DoResumeAgain /\ StepE([a |-> "Resume"], 1)
 
 MCElect == /\ nEl < MaxElect /\ DoElect /\ StepE([a |-> "Elect"], 1)
 
@@ -57,10 +63,12 @@ MCLoopExit(s) == DoLoopExit(s) /\ Step([a |-> "LoopExit", s |-> s])
 
 MCNext ==
   \/ \E n \in Nodes, ris \in BOOLEAN, g \in Groups \cup {NoGroup}, c \in Consumers, e \in 1..MaxEpoch,
-        bad \in BOOLEAN, stop \in {"none", "bounded"} : MCSubscribe(n, ris, g, c, e, bad, stop)
+        bad \in BOOLEAN, stop \in {"none", "bounded"}, via \in {"int", "grpc"} :
+           MCSubscribe(n, ris, g, c, e, bad, stop, via)
   \/ \E g \in Groups, c1 \in Consumers, c2 \in Consumers, e \in 1..MaxEpoch : MCBurst(g, c1, c2, e)
   \/ \E s \in 1..MaxSubs, c \in Consumers, e \in 1..MaxEpoch : MCRace(s, c, e)
   \/ MCElect
+  \/ MCResume
   \/ \E s \in 1..MaxSubs : MCCancel(s)
   \/ \E s \in 1..MaxSubs : MCLoopExit(s)
 
@@ -76,6 +84,7 @@ StepOK ==
     [] a.a = "LoopExit" -> P_LoopExit(a.s)
     [] a.a = "Race" -> P_Race(a.s, a.q)
     [] a.a = "Elect" -> P_Elect
+    [] a.a = "Resume" -> P_Resume
     [] OTHER -> TRUE
 \* C13_OneActive outside the situation of the open finding
 MC_OneActive == (StrandedKnown /\ Stranded(subs, ldr)) \/ C13_OneActive
